@@ -445,3 +445,7 @@ def r6_agent_delivery(chk, fx):
     # (an evaluation that succeeded with the empty set is a result — the installed filters must be emptied — not a failure), and every
     # candidate is evaluated: C03/R2's decision on Candidate::evaluate and Policies::evaluate
     c03.r2_eval(_Rename(chk, "C03/R2", "C11/R6:eval"), fx)
+    # (d) a name denotes the same set wherever and however often it occurs in an expression: resolving it reads and writes no evaluator
+    # state but the connection slot (a "seen already" set, a negative cache, a cycle guard that remembers finished expansions make the
+    # second occurrence resolve differently): C17/R3's decision, recorded here
+    c17.r3_stateless(_Rename(chk, "C17/R3", "C11/R6:state"), fx)
